@@ -42,9 +42,23 @@ def _relabel_overflow(r):
         r.status = "OVERFLOW"
 
 
+def _relabel_hang(r):
+    """where the property itself says 'does not hang' (job kv hang_is_failure=1): a run the watchdog had to stop is a
+    failure when its backtrace shows it stuck inside the repository's code (not inside z3 or the harness)."""
+    if r.status != "TIMEOUT" or not r.cmd or str(r.cmd[1].get("hang_is_failure", "")) != "1" or not r.crash:
+        return
+    frames = [x for x in r.crash if "(" in x and "crash_handler" not in x]
+    inner = frames[:8]
+    if any("libz3" in x for x in inner):
+        return
+    if any(re.search(r"/lib(smt|json|riddle|core|solver|executor|concurrent)\.so\(", x) for x in inner):
+        r.status = "HANG"
+
+
 def is_failure(r):
     _relabel_overflow(r)
-    return r.status in ("VIOL", "CRASH")
+    _relabel_hang(r)
+    return r.status in ("VIOL", "CRASH", "HANG")
 
 
 def crash_class(r):
@@ -67,6 +81,9 @@ def result_class(r):
         return r.cls
     if r.status == "CRASH":
         return crash_class(r)
+    _relabel_hang(r)
+    if r.status == "HANG":
+        return "HANG." + crash_class(r).split(".", 2)[-1]
     if r.status == "TIMEOUT":
         return "TIMEOUT"
     return None
@@ -195,8 +212,16 @@ class Check:
         by_class = {}
         for r in self.failures:
             by_class.setdefault(result_class(r), []).append(r)
+        work = []
         for cls, rs in sorted(by_class.items(), key=lambda kv: str(kv[0])):
-            r = min(rs, key=lambda x: len(x.kv.get("ops", "")) or 0)
+            # one representative per class, plus (so that a known finding never hides a different violation of the same
+            # class) up to two more whose own message no open finding of this property matches
+            rs = sorted(rs, key=lambda x: len(x.kv.get("ops", "")) or 0)
+            work.append((cls, rs[0]))
+            others = [x for x in rs[1:] if not any(finding_matches(f, self.prop, cls, result_msg(x)) for f in findings)]
+            if any(finding_matches(f, self.prop, cls, result_msg(rs[0])) for f in findings):
+                work.extend((cls, x) for x in others[:2])
+        for cls, r in work:
             cfg = r.kv["config"]
             eng = r.kv.get("engine", self.spec.get("engine"))
             w = Worker(self.exes[(eng, cfg)])
@@ -249,7 +274,7 @@ class Check:
                 if self.extra_kv():
                     replay["exec_extra"] = self.extra_kv()
                 # known finding?
-                kf = next((f for f in findings if finding_matches(f, self.prop, cls, msg)), None)
+                kf = None if os.environ.get("VERIF_IGNORE_KNOWN") else next((f for f in findings if finding_matches(f, self.prop, cls, msg)), None)
                 if kf:
                     self.known_seen.append((kf, msg))
                     continue
